@@ -49,8 +49,8 @@ func c19Parallel() int {
 
 // c19StartMosn starts MOSN from cfgPath in a fresh process (working directory
 // cwd) and returns what it reported. scratch is a directory for the result
-// file.
-func c19StartMosn(cwd, cfgPath, scratch, tag string) c19Start {
+// file. extraEnv: c19EnvOneDump=1 makes the start persist exactly once.
+func c19StartMosn(cwd, cfgPath, scratch, tag string, extraEnv ...string) c19Start {
 	c19Sem <- struct{}{}
 	defer func() { <-c19Sem }()
 	out := filepath.Join(scratch, "result_"+tag+".json")
@@ -66,6 +66,7 @@ func c19StartMosn(cwd, cfgPath, scratch, tag string) c19Start {
 		env = append(env, e)
 	}
 	env = append(env, c19EnvConfig+"="+cfgPath, c19EnvOut+"="+out, "GOMAXPROCS=2")
+	env = append(env, extraEnv...)
 	cmd.Env = env
 	var buf bytes.Buffer
 	cmd.Stdout = &buf
